@@ -23,6 +23,13 @@ CHECKS = {
             "(heading tokens may be covered by heading paths), unit numbers must be the 1-based source positions, and get_full_text() must equal the trimmed newline-join for the formats the property lists.",
             "Same generators as C02; flowing-text formats may produce one unit or one per heading section.",
             "DESIGN.md §8 C03, Appendix A"),
+    "C07": ("exploration",
+            "recording stubs on the 21 extractor functions + README-derived routing table; path grammar x 5 mimetypes configurations, each in its own worker process",
+            "A routing table transcribed by hand from the README decides which extractor every documented extension/alias must reach; a path grammar (all known extensions, case variants, "
+            "dots/spaces/unicode/URL/compound forms) is evaluated under default, emptied and hostile MIME databases; is_supported_file == get_extractor-succeeds, only the not-supported error, "
+            "alias == base, MIME-independence of routed extensions, and read_file dispatch observed through stubs on real temp files.",
+            "Trusts the README tables as the specification of routing; Windows path semantics are not observable on this host.",
+            "DESIGN.md §8 C07"),
     "C13": ("exploration",
             "ground-truth tables (token cells and typed values) vs iterate_tables()/get_dim() of the real extractors",
             "Generated r x c grids with empty cells, multi-paragraph cells, header rows, typed spreadsheet values; compared cell by cell (tokens / value equality), table count/order and get_dim().",
